@@ -130,7 +130,13 @@ func c18ConcurrentSet(c *Ctx) {
 					if i%3 == 0 {
 						n = 1 + rr.Intn(200)
 					}
-					if err := s.Set("k", bytes.Repeat([]byte{byte('A' + w)}, n)); err != nil {
+					// in every second round the writers spell the key differently: the store strips ':' from file names, so
+					// "k", "k:" and ":k" are one file (and one temporary file) — F38 — and their writers are writers of one key
+					key := "k"
+					if round%2 == 1 {
+						key = []string{"k", "k:", ":k", "k::"}[w%4]
+					}
+					if err := s.Set(key, bytes.Repeat([]byte{byte('A' + w)}, n)); err != nil {
 						bad.Store(fmt.Sprintf("Set returned %v", err))
 					}
 				}
